@@ -402,3 +402,28 @@ func H04j_JSONArray() {
 func H04dj_JSONStruct() {
 	describeTotal(newPlencJSON(), func() interface{} { return new(TJSON) })
 }
+
+// H16b_BigEntry: entries whose encoding crosses the 2->3 byte length-prefix boundary.
+func H16b_BigEntry() {
+	vrt.MapOrder(false)
+	p := newPlencJSON()
+	n := []int{16370, 16384, 16390}[vrt.Choice("len", 3)]
+	s := vrt.String("s", n)
+	var in TJSON
+	in.A, in.B = smallSym("A"), smallSym("B")
+	if vrt.Choice("where", 2) == 0 {
+		in.M = map[string]any{"k": s}
+	} else {
+		in.L = []any{s, 1}
+	}
+	data, err := p.Marshal(nil, &in)
+	vrt.Assert("marshal ok", err == nil)
+	var out TJSON
+	vrt.Assert("unmarshal ok", p.Unmarshal(data, &out) == nil)
+	vrt.Assert("surrounding fields", vrt.And(out.A == in.A, out.B == in.B))
+	vrt.Assert("map field", eqObj(in.M, out.M))
+	vrt.Assert("array field", eqArr(in.L, out.L))
+	var less TJSONLess
+	vrt.Assert("skip ok", p.Unmarshal(data, &less) == nil)
+	vrt.Assert("JSON fields skipped exactly", vrt.And(less.A == in.A, less.B == in.B))
+}
